@@ -44,13 +44,6 @@ Bad       == [t |-> "bad"]
 
 Abs(m) == IF m < 0 THEN 0 - m ELSE m
 
-\* Strings whose numeric reading this model is sure of: no character that
-\* could start a fraction, exponent, hex or inf/nan form.
-SafeChars == {c_a, c_b, c_c, c_d, c_g, c_h, c_k, c_m, c_q, c_r, c_s, c_t, c_u, c_v, c_w, c_y, c_z,
-              SP, COMMA, COLON, SEMI, MINUS, PLUS, USCORE, D0, D1, D2, D3, D4, D5, D6, D7, D8, D9, LF, TAB,
-              SLASH, EQ, LT, GT, BANG, HASH, AMP, 28}
-SafeStr(str) == \A j \in 1..Len(str) : str[j] \in SafeChars
-
 \* integer prefix: blanks, optional sign, digits.  Returns <<value, endpos, ndigits>>
 RECURSIVE DigitRun(_, _, _, _)
 DigitRun(str, k, acc, cnt) ==
@@ -63,6 +56,20 @@ IntPrefix(str) ==
       sgn == st0 <= Len(str) /\ str[st0] \in {MINUS, PLUS}
       dr  == DigitRun(str, IF sgn THEN st0 + 1 ELSE st0, 0, 0)
   IN [val |-> IF neg THEN 0 - dr[1] ELSE dr[1], end |-> dr[2], nd |-> dr[3]]
+
+\* Strings whose numeric reading this model is sure of: printable ASCII (plus tab, newline) whose
+\* numeric prefix, if any, is a plain integer of at most 6 digits -- nothing that could be a
+\* fraction, an exponent, a hex, inf or nan form.
+SafeStr(str) ==
+  /\ \A j \in 1..Len(str) : (str[j] >= 32 /\ str[j] <= 126) \/ str[j] \in {TAB, LF}
+  /\ LET st0 == SkipBlanks(str, 1)
+         k == IF st0 <= Len(str) /\ str[st0] \in {MINUS, PLUS} THEN st0 + 1 ELSE st0
+     IN IF k > Len(str) THEN TRUE
+        ELSE IF str[k] \in {c_i, C_I, c_n, C_N, DOT} THEN FALSE
+        ELSE IF IsDigit(str[k])
+             THEN LET dr == DigitRun(str, k, 0, 0)
+                  IN dr[3] < 7 /\ (dr[2] > Len(str) \/ str[dr[2]] \notin {DOT, c_e, C_E, c_x, C_X, c_p, 80, USCORE})
+             ELSE TRUE
 
 \* the whole string is blanks? sign? digits+ blanks?
 LooksInt(str) ==
@@ -154,22 +161,35 @@ Arith(op, x, y) ==
 \* arr   arrays: function id -> (function key -> value)
 \* rec   the record (Record.tla);  ftag: which fields were assigned by the program
 \* sp    special variables other than NF: name -> value
-\* out   standard output;  sig/rv control signal;  fuel; fresh; inp (remaining input records)
+\* out   standard output;  sig/rv control signal;  fuel; fresh;  input environment: see InitState
 \* cnt   ghost: how many times each labelled statement began (C18)
 Lookup(fn, key, dflt) == IF key \in DOMAIN fn THEN fn[key] ELSE dflt
 Update(fn, key, val) == [x \in DOMAIN fn \cup {key} |-> IF x = key THEN val ELSE fn[x]]
 Remove(fn, key) == [x \in DOMAIN fn \ {key} |-> fn[x]]
 EmptyFn == [x \in {} |-> 0]
 
-Specials == {"NF", "NR", "FNR", "OFS", "ORS", "FS", "SUBSEP", "RSTART", "RLENGTH", "CONVFMT", "OFMT", "FILENAME", "RS"}
+Specials == {"NF", "NR", "FNR", "OFS", "ORS", "FS", "SUBSEP", "RSTART", "RLENGTH", "CONVFMT", "OFMT", "FILENAME", "RS", "ARGC"}
 
-InitState(input, funcs) ==
-  [g |-> EmptyFn, fr |-> <<>>, arr |-> EmptyFn, rec |-> RecInit, ftag |-> {}, ltag |-> FALSE, funcs |-> funcs,
-   sp |-> [x \in {"NR", "FNR", "OFS", "ORS", "FS", "SUBSEP", "RSTART", "RLENGTH"} |->
+\* Input environment: env = [stdin (records), files (name -> records), args (operands)]
+\*   cur      the main-input source now open: [open, name, pos]  (name "-" is standard input)
+\*   argi     index of the next ARGV element to look at;  hadFiles as in the implementation
+\*   stdinpos next unread record of standard input;  readers: getline-from-file positions
+InitState(env, funcs) ==
+  [g |-> EmptyFn, fr |-> <<>>,
+   arr |-> [x \in {"ARGV"} |-> [key \in {IntStr(j) : j \in 0..Len(env.args)} |->
+                                  IF key = <<D0>> THEN Str(<<c_g, c_o, c_a, c_w, c_k>>)
+                                  ELSE StrNum(env.args[CHOOSE j \in 1..Len(env.args) : IntStr(j) = key])]],
+   rec |-> RecInit, ftag |-> {}, ltag |-> FALSE, funcs |-> funcs,
+   sp |-> [x \in {"NR", "FNR", "OFS", "ORS", "FS", "SUBSEP", "RSTART", "RLENGTH", "ARGC", "FILENAME"} |->
              CASE x \in {"NR", "FNR", "RSTART", "RLENGTH"} -> Num(0)
+               [] x = "ARGC" -> Num(Len(env.args) + 1)
+               [] x = "FILENAME" -> Null
                [] x = "OFS" -> Str(<<SP>>) [] x = "ORS" -> Str(<<LF>>)
                [] x = "FS" -> Str(<<SP>>) [] x = "SUBSEP" -> Str(<<28>>)],
-   out |-> <<>>, sig |-> "norm", rv |-> Null, fuel |-> Fuel, fresh |-> 0, inp |-> input, status |-> 0,
+   out |-> <<>>, sig |-> "norm", rv |-> Null, fuel |-> Fuel, fresh |-> 0, status |-> 0,
+   stdin |-> env.stdin, stdinpos |-> 1, files |-> env.files, argi |-> 1, hadFiles |-> FALSE,
+   cur |-> [open |-> FALSE, name |-> <<>>, pos |-> 1], readers |-> EmptyFn, inrange |-> {},
+   taken |-> 0, nrSet |-> FALSE,        \* ghosts: records taken from the main input; NR assigned by the program
    cnt |-> EmptyFn]
 
 Halt(st, sg) == [st EXCEPT !.sig = sg]
@@ -204,7 +224,8 @@ SetVar(st, name, v) ==
     IN IF fsv.k = "bad" THEN Halt(st, "bad")
        ELSE [st EXCEPT !.sp = Update(@, name, v), !.rec = RecSetFS(st.rec, fsv)]
   ELSE IF name = "OFS" THEN [st EXCEPT !.sp = Update(@, name, v), !.rec = RecSetOFS(st.rec, ToStr(v))]
-  ELSE IF name \in {"NR", "FNR", "ORS", "SUBSEP", "RSTART", "RLENGTH"} THEN [st EXCEPT !.sp = Update(@, name, v)]
+  ELSE IF name \in {"NR", "FNR", "ORS", "SUBSEP", "RSTART", "RLENGTH", "ARGC", "FILENAME"}
+       THEN [st EXCEPT !.sp = Update(@, name, v), !.nrSet = @ \/ name = "NR"]
   ELSE IF name \in Specials THEN Halt(st, "bad")
   ELSE [st EXCEPT !.g = Update(@, name, v)]
 
@@ -281,7 +302,7 @@ Format(fm, vals) == FormatFrom(fm, 1, vals, 1)
 \* ------------------------------------------------------------- expressions
 RECURSIVE Eval(_, _), EvalArgs(_, _, _), Subscript(_, _), LvRead(_, _, _), LvWrite(_, _, _, _), LvKey(_, _),
           Exec(_, _), ExecList(_, _), Loop(_, _, _, _, _), ForIn(_, _, _, _, _), CallUser(_, _, _), BindArgs(_, _, _, _, _, _),
-          BuiltinCall(_, _, _)
+          BuiltinCall(_, _, _), Getline(_, _)
 
 \* the value of an expression that needs a number: <<int | "bad", state>>
 NumOf(v) == ToNum(Norm(v))
@@ -418,6 +439,12 @@ Eval(e, st) ==
                     ELSE LET nv == IF e.op = "++" THEN x + 1 ELSE x - 1
                          IN IF ~InRange(nv) THEN <<Null, Halt(old[2], "bad")>>
                             ELSE <<Num(IF e.pre THEN nv ELSE x), LvWrite(kk[1], old[2], Num(nv), 0)>>
+    [] e.k = "getline" -> Getline(e, st)
+    [] e.k = "close" ->            \* close(name) of a getline-from-file reader: the next getline re-reads the file
+         LET r == Eval(e.name, st) fname == ToStr(Norm(r[1]))
+         IN IF ~Live(r[2]) THEN r
+            ELSE IF fname \in DOMAIN r[2].readers THEN <<Num(0), [r[2] EXCEPT !.readers = Remove(@, fname)]>>
+            ELSE <<Num(0 - 1), r[2]>>
     [] e.k = "re0" -> <<Bool(Matches(e.re, st.rec.line)), st>>        \* a bare /re/ is $0 ~ /re/
     [] e.k = "subst" ->           \* sub / gsub (re, repl, target); target index first, then the replacement
          LET kk == LvKey(e.lv, st)
@@ -517,12 +544,74 @@ Emit(st, bytes) == [st EXCEPT !.out = @ \o bytes]
 
 Count(st, lbl) == IF lbl = "" THEN st ELSE [st EXCEPT !.cnt = Update(@, lbl, Lookup(@, lbl, 0) + 1)]
 
-ReadRecord(st) ==     \* plain getline / main loop: next record of the main input
-  LET ln == Head(st.inp)
-      nrv == NumOf(GetVar(st, "NR")) fnv == NumOf(GetVar(st, "FNR"))
-  IN IF nrv = BADN \/ fnv = BADN THEN Halt(st, "bad")
-     ELSE [st EXCEPT !.inp = Tail(@), !.rec = RecSet0(st.rec, ln), !.ftag = {}, !.ltag = FALSE,
-                     !.sp = Update(Update(@, "NR", Num(nrv + 1)), "FNR", Num(fnv + 1))]
+\* ---- the main input: operands walked left to right (interp/io.go nextLine) ----
+\* an operand  name=value  (name: letters, digits, underscore, not starting with a digit)
+IsNameCh(ch) == (ch >= 97 /\ ch <= 122) \/ (ch >= 65 /\ ch <= 90) \/ ch = USCORE \/ IsDigit(ch)
+AssignSplit(arg) ==        \* position of the '=' of a var=value operand, or 0
+  LET eqs == {j \in 1..Len(arg) : arg[j] = EQ}
+  IN IF eqs = {} THEN 0
+     ELSE LET q == Min(eqs)
+          IN IF q > 1 /\ ~IsDigit(arg[1]) /\ \A j \in 1..(q - 1) : IsNameCh(arg[j]) THEN q ELSE 0
+\* operand variable names the model knows (a TLA+ string is needed to address a variable)
+VarNameOf(bytes) ==
+  CASE bytes = <<c_v>> -> "v" [] bytes = <<c_w>> -> "w" [] bytes = <<c_k>> -> "k" [] bytes = <<c_x>> -> "x"
+    [] bytes = <<C_F, C_S>> -> "FS" [] bytes = <<C_N, C_R>> -> "NR" [] OTHER -> ""
+
+CurContent(st) == IF st.cur.name = <<MINUS>> THEN st.stdin ELSE st.files[st.cur.name]
+CurPos(st) == IF st.cur.name = <<MINUS>> THEN st.stdinpos ELSE st.cur.pos
+
+OpenSource(st, name) ==
+  [st EXCEPT !.cur = [open |-> TRUE, name |-> name, pos |-> 1], !.hadFiles = TRUE,
+             !.sp = Update(Update(@, "FILENAME", StrNum(name)), "FNR", Num(0))]
+
+\* NextMain(st, n): [found, line, st]; n bounds the operand walk
+RECURSIVE NextMain(_, _)
+NextMain(st, n) ==
+  IF n = 0 THEN [found |-> FALSE, line |-> <<>>, st |-> Halt(st, "bad")]
+  ELSE IF st.cur.open THEN
+    IF CurPos(st) <= Len(CurContent(st))
+    THEN LET nrv == NumOf(GetVar(st, "NR")) fnv == NumOf(GetVar(st, "FNR"))
+             s1 == IF st.cur.name = <<MINUS>> THEN [st EXCEPT !.stdinpos = @ + 1] ELSE [st EXCEPT !.cur.pos = @ + 1]
+         IN IF nrv = BADN \/ fnv = BADN THEN [found |-> FALSE, line |-> <<>>, st |-> Halt(st, "bad")]
+            ELSE [found |-> TRUE, line |-> CurContent(st)[CurPos(st)],
+                  st |-> [s1 EXCEPT !.sp = Update(Update(@, "NR", Num(nrv + 1)), "FNR", Num(fnv + 1)), !.taken = @ + 1]]
+    ELSE NextMain([st EXCEPT !.cur.open = FALSE], n - 1)
+  ELSE LET argc == NumOf(GetVar(st, "ARGC"))
+       IN IF argc = BADN THEN [found |-> FALSE, line |-> <<>>, st |-> Halt(st, "bad")]
+          ELSE IF st.argi >= argc THEN
+                 IF ~st.hadFiles THEN NextMain(OpenSource(st, <<MINUS>>), n - 1)
+                 ELSE [found |-> FALSE, line |-> <<>>, st |-> st]
+          ELSE LET arg == ToStr(Lookup(ArrGet(st, "ARGV"), IntStr(st.argi), Null))
+                   s1 == [st EXCEPT !.argi = @ + 1]
+                   q == AssignSplit(arg)
+               IN IF q > 0 THEN
+                    LET nm == VarNameOf(SubSeq(arg, 1, q - 1))
+                    IN IF nm = "" THEN [found |-> FALSE, line |-> <<>>, st |-> Halt(st, "bad")]
+                       ELSE NextMain(SetVar(s1, nm, StrNum(SubSeq(arg, q + 1, Len(arg)))), n - 1)
+                  ELSE IF arg = <<>> THEN NextMain(s1, n - 1)
+                  ELSE IF arg = <<MINUS>> THEN NextMain(OpenSource(s1, arg), n - 1)
+                  ELSE IF arg \in DOMAIN st.files THEN NextMain(OpenSource(s1, arg), n - 1)
+                  ELSE [found |-> FALSE, line |-> <<>>, st |-> Halt(s1, "bad")]     \* missing file: not modelled
+
+SetRecord(st, ln) == [st EXCEPT !.rec = RecSet0(st.rec, ln), !.ftag = {}, !.ltag = FALSE]
+
+\* getline in all its forms.  e = [k |-> "getline", src ("main" | "file"), name (expr), lv (lvalue | NoE)]
+\* value 1 / 0 (end of input) / -1 (no such file)
+Getline(e, st) ==
+  LET kk == IF e.lv.k = "none" THEN <<NoE, st>> ELSE LvKey(e.lv, st)          \* the target's index first
+      nm == IF e.src = "file" THEN Eval(e.name, kk[2]) ELSE <<Null, kk[2]>>
+      s1 == nm[2]
+      Deliver(ln, s2) == IF e.lv.k = "none" THEN SetRecord(s2, ln) ELSE LvWrite(kk[1], s2, StrNum(ln), 0)
+  IN IF ~Live(s1) THEN <<Null, s1>>
+     ELSE IF e.src = "main" THEN
+            LET r == NextMain(s1, 12)
+            IN IF ~Live(r.st) THEN <<Null, r.st>>
+               ELSE IF r.found THEN <<Num(1), Deliver(r.line, r.st)>> ELSE <<Num(0), r.st>>
+     ELSE LET fname == ToStr(Norm(nm[1]))
+          IN IF fname \notin DOMAIN s1.files THEN <<Num(0 - 1), s1>>
+             ELSE LET pos == Lookup(s1.readers, fname, 1)
+                  IN IF pos > Len(s1.files[fname]) THEN <<Num(0), [s1 EXCEPT !.readers = Update(@, fname, pos)]>>
+                     ELSE <<Num(1), Deliver(s1.files[fname][pos], [s1 EXCEPT !.readers = Update(@, fname, pos + 1)])>>
 
 \* Loop(kind-specific pieces): cond checked first unless first = FALSE
 Loop(c, body, post, st, checkFirst) ==
@@ -596,18 +685,28 @@ Exec(s, st0) ==
               IN IF ~Live(r[2]) THEN r[2] ELSE [r[2] EXCEPT !.arr = Update(@, id, Remove(ArrGet(r[2], id), r[1]))]
     [] s.k = "block" -> ExecList(s.b, st)
     [] s.k = "getline" ->        \* plain getline as a statement: next main-input record, if any
-         IF st.inp = <<>> THEN st ELSE ReadRecord(st)
+         Getline([k |-> "getline", src |-> "main", name |-> NoE, lv |-> NoE], st)[2]
+    [] s.k = "nextfile" -> Halt(st, "nextfile")
 
 ExecList(ss, st) ==
   IF ss = <<>> \/ ~Live(st) THEN st ELSE ExecList(Tail(ss), Exec(ss[1], st))
 
 \* ----------------------------------------------------------------- program
-\* rules: sequence of [pat (expr or NoE), body, nobody (TRUE: default action print $0)]
+\* rules: sequence of [pat (expr or NoE), pat2 (NoE unless a range pattern), body, nobody]
+\* A range pattern selects from a record matching pat through the next record matching pat2,
+\* inclusive, possibly the same record.
 RECURSIVE RunRules(_, _, _), MainLoop(_, _)
+RuleMatches(rl, j, st) ==      \* <<matched, state>>
+  IF "pat2" \notin DOMAIN rl \/ rl.pat2.k = "none" THEN CondOf(rl.pat, st)
+  ELSE LET op == IF j \in st.inrange THEN <<TRUE, st>> ELSE CondOf(rl.pat, st)
+       IN IF ~Live(op[2]) \/ ~op[1] THEN op
+          ELSE LET cl == CondOf(rl.pat2, op[2])
+               IN <<TRUE, [cl[2] EXCEPT !.inrange = IF cl[1] THEN @ \ {j} ELSE @ \cup {j}]>>
+
 RunRules(rules, j, st) ==
   IF j > Len(rules) \/ ~Live(st) THEN st
   ELSE LET rl == rules[j]
-           cr == CondOf(rl.pat, st)
+           cr == RuleMatches(rl, j, st)
        IN IF ~Live(cr[2]) THEN cr[2]
           ELSE IF ~cr[1] THEN RunRules(rules, j + 1, cr[2])
           ELSE LET s1 == IF rl.nobody THEN Emit(cr[2], cr[2].rec.line \o ToStr(GetVar(cr[2], "ORS")))
@@ -615,24 +714,35 @@ RunRules(rules, j, st) ==
                IN RunRules(rules, j + 1, s1)
 
 MainLoop(rules, st) ==
-  IF ~Live(st) \/ st.inp = <<>> THEN st
-  ELSE LET s0 == ReadRecord(st)
-           s1 == RunRules(rules, 1, s0)
-       IN IF s1.sig = "next" THEN MainLoop(rules, [s1 EXCEPT !.sig = "norm"]) ELSE MainLoop(rules, s1)
+  IF ~Live(st) THEN st
+  ELSE IF st.fuel <= 0 THEN Halt(st, "bad")
+  ELSE LET r == NextMain(st, 12)
+       IN IF ~Live(r.st) \/ ~r.found THEN r.st
+          ELSE LET s1 == RunRules(rules, 1, SetRecord([r.st EXCEPT !.fuel = @ - 1], r.line))
+               IN IF s1.sig = "next" THEN MainLoop(rules, [s1 EXCEPT !.sig = "norm"])
+                  ELSE IF s1.sig = "nextfile" THEN MainLoop(rules, [s1 EXCEPT !.sig = "norm", !.cur.open = FALSE])
+                  ELSE MainLoop(rules, s1)
 
 \* a signal that may not escape where it is: break/continue outside a loop and
 \* return outside a function are rejected by the parser, next in BEGIN/END likewise;
 \* such programs are not generated, and are reported as bad if they occur.
-Settle(st) == IF st.sig \in {"break", "cont", "ret", "next"} THEN Halt(st, "bad") ELSE st
+Settle(st) == IF st.sig \in {"break", "cont", "ret", "next", "nextfile"} THEN Halt(st, "bad") ELSE st
 
-Run(prog, input) ==
-  LET s0 == InitState(input, prog.funcs)
+RunEnv(prog, env) ==
+  LET s0 == InitState(env, prog.funcs)
       s1 == Settle(ExecList(prog.begin, s0))
       onlyBegin == prog.rules = <<>> /\ prog.end = <<>>
       s2 == IF s1.sig # "norm" \/ onlyBegin THEN s1 ELSE Settle(MainLoop(prog.rules, s1))
       s3 == IF s2.sig \in {"norm", "exit"} /\ ~onlyBegin
             THEN Settle(ExecList(prog.end, [s2 EXCEPT !.sig = "norm"])) ELSE s2
   IN s3
+
+Run(prog, input) == RunEnv(prog, [stdin |-> input, files |-> EmptyFn, args |-> <<>>])
+
+\* C11, on the model itself: NR counts every record taken from the main input (by the main
+\* loop, plain getline or getline var) unless the program assigns NR; FNR never exceeds NR then.
+NRCountsTaken(st) ==
+  st.sig = "bad" \/ st.nrSet \/ (GetVar(st, "NR") = Num(st.taken) /\ NumOf(GetVar(st, "FNR")) <= st.taken)
 
 \* what the property compares
 Outcome(st) ==
